@@ -9,8 +9,8 @@ import (
 	"math/big"
 	"strings"
 
-	"golang.org/x/tools/go/ssa"
 	"golang.org/x/crypto/ripemd160"
+	"golang.org/x/tools/go/ssa"
 )
 
 type intrinsic func(in *Interp, fn *ssa.Function, args []Value) Value
